@@ -12,3 +12,14 @@ pub use self::raw::Input;
 pub use self::raw::Player;
 pub use self::raw::PlayerChange;
 pub use self::raw::Pos;
+
+/// Verification hook: the incremental reader with a caller-supplied read
+/// callback (otherwise private).
+#[cfg(libtw2_verif)]
+pub mod verif {
+    pub use crate::raw::Buffer;
+    pub use crate::raw::Callback;
+    pub use crate::raw::Error;
+    pub use crate::raw::Item;
+    pub use crate::raw::Reader;
+}
